@@ -175,3 +175,24 @@ Proof.
   - destruct Hin as [->|Hin]; [cbn in E; rewrite bytes_eqb_refl in E; discriminate|].
     apply IH; assumption.
 Qed.
+
+(* the http server: every websocket path routes by its own allow-list, independently of the other paths *)
+Lemma http_paths tbl allows lists i al served req :
+  startup_http tbl allows = Some lists ->
+  nth_error allows i = Some al -> nth_error lists i = Some served ->
+  route served req = (if match al with [] => true | _ => existsb (fun n => bytes_eqb n req) al end
+                      then first_named tbl req else None).
+Proof.
+  unfold startup_http. destruct (existsb snd (map (filter_chans tbl) allows)) eqn:E; [discriminate|].
+  intros H Ha Hl. injection H as H. subst lists.
+  rewrite map_map in Hl. rewrite nth_error_map in Hl. rewrite Ha in Hl. cbn in Hl. injection Hl as Hl.
+  destruct (filter_chans tbl al) as [sv err] eqn:F. cbn in Hl. subst sv.
+  assert (err = false).
+  { destruct err; [|reflexivity]. exfalso.
+    assert (existsb snd (map (filter_chans tbl) allows) = true).
+    { apply existsb_exists. exists (filter_chans tbl al). split.
+      - apply in_map. eapply nth_error_In; exact Ha.
+      - rewrite F; reflexivity. }
+    rewrite E in H; discriminate. }
+  subst err. apply (route_filter _ _ _ req F).
+Qed.
